@@ -74,6 +74,7 @@ Atoms == {Null, [j |-> "t"], [j |-> "f"], [j |-> "x", c |-> "x01"], [j |-> "x", 
           Arr(<<>>), Arr(<<N("p7")>>), Arr(<<Null>>), Obj(<<>>), Obj(<<KV("A", N("p7"))>>), Obj(<<KV("k", S("sx"))>>), Obj(<<KV("12", N("p7"))>>)}
          \cup {N(c) : c \in NumClasses} \cup {S(c) : c \in StrClasses \ (QClasses \ {"q7", "q300"})}
 AtomsR == {Null, [j |-> "t"], N("p7"), N("p300"), N("f1_5"), S("sx"), S("s12"), Arr(<<>>), Obj(<<>>), [j |-> "x", c |-> "x01"]}
+          \cup (IF Fam = "opts" THEN {S("ssur"), Obj(<<KV("~sur", N("p7"))>>)} ELSE {})
           \cup (IF Fam \in {"st1", "st1l", "st1w", "st2", "emb", "opts"} THEN {S(c) : c \in QClasses \cup {"strue", "sq", "snull"}} ELSE {})
 
 RECURSIVE Match(_)
@@ -94,7 +95,7 @@ Match(t) ==
                                                   IF t.f[i].tag = "str" /\ QuotableField(t.f[i].t) THEN S("q7")
                                                   ELSE Match(IF t.f[i].tag = "emb" THEN [k |-> "i8"] ELSE t.f[i].t))])
 
-AltKeys == {"A", "a", "B", "b", "C", "x", "Z", "k", "12", "-1", "300", "01", "", "-129", "200", "40000", "-40000", "3000000000", "5000000000",
+AltKeys == {"~sur", "A", "a", "B", "b", "C", "x", "Z", "k", "12", "-1", "300", "01", "", "-129", "200", "40000", "-40000", "3000000000", "5000000000",
             "9223372036854775808", "-9223372036854775808"}
 
 \* every document that differs from J at one point: a sub-document replaced by an atom, an element or member
@@ -153,7 +154,7 @@ OptsFor(t, Jd) == LET hi == HasIface(t)
                       so == StdOnly(Jd)
                   IN {x \in Opts : /\ (x.num # "none" => hi)
                                    /\ (~x.vs => ~so)
-                                   /\ (Fam # "opts" => ~x.cs /\ ~x.duf)}
+                                   /\ (Fam # "opts" => ~x.cs /\ ~x.duf /\ ~x.ue)}
 
 Init == /\ T \in MyTypes
         /\ J \in DocsFor(T)
